@@ -746,17 +746,30 @@ theorem read_eq_denote (lay : Layout) (hlay : LayoutOK lay) (lines : List Bytes)
   subst e
   exact hord doc hb
 
-/-- **The same through the FILE entry point**: `BMSMap.read_file` on the bytes of a file whose lines are separated
-by LF, CRLF or bare CR (`fileLines`; the codec is not modelled) — `readFile` is `read` on those lines. -/
+/-- **The same through the FILE entry point**: `BMSMap.read_file` on the bytes of a file (`readFile`: Python's
+`readlines()` line splitting, then `read`) against the by-the-book meaning of the file — its bytes split at LF, CRLF
+or bare CR (`fileLines`), then `denoteText` — for every file that holds none of the control bytes VT, FF, FS, GS, RS
+(Python also cuts lines there: dialect, `read_file_splits_at_control_bytes`).  The codec is not modelled. -/
 theorem read_file_eq_denote (lay : Layout) (hlay : LayoutOK lay) (bytes : Bytes) (d : Denotation)
+    (hx : ∀ c ∈ bytes, pyExoticSep c = false)
     (hden : denoteText lay (fileLines bytes) = some d)
     (hord : ∀ doc, bookDoc (fileLines bytes) = some doc → LanesInOrder lay doc.notes)
     (hgc : gridCompatible (grid defaultMaxDiv) d.tempo = true) :
-    ∃ c, read defaultGrid lay (fileLines bytes) = .ok c ∧
+    ∃ c, readFile defaultGrid lay bytes = .ok c ∧
       (c.hits.map HitOut.toD).Perm d.hits ∧ (c.holds.map HoldOut.toD).Perm d.holds ∧ c.header = d.header ∧
       (c.tempo = d.tempo ∨ ((∃ h, d.tempo = h :: c.tempo) ∧ firstAtZero c.tempo = true)) ∧
-      interleaveB 0 false (inPts 0 c.tempo) (outPtsOff c.bpms) = true :=
-  read_eq_denote lay hlay (fileLines bytes) d hden hord hgc
+      interleaveB 0 false (inPts 0 c.tempo) (outPtsOff c.bpms) = true := by
+  unfold readFile
+  rw [pyLines_eq_fileLines bytes hx]
+  exact read_eq_denote lay hlay (fileLines bytes) d hden hord hgc
+
+/-- dialect fact behind the hypothesis of `read_file_eq_denote`: a form feed inside a header value ends the line for
+`read_file` (Python's `splitlines`), not for the format -/
+theorem read_file_splits_at_control_bytes :
+    pyLines ("#TITLE a".toList ++ [Char.ofNat 12] ++ "b\n#BPM 120".toList) = ["#TITLE a".toList, "b".toList, "#BPM 120".toList] ∧
+    fileLines ("#TITLE a".toList ++ [Char.ofNat 12] ++ "b\n#BPM 120".toList) =
+      ["#TITLE a".toList ++ [Char.ofNat 12] ++ "b".toList, "#BPM 120".toList] := by
+  decide +kernel
 
 /-- the five generated layouts satisfy what `read_eq_denote` asks of a layout -/
 theorem layouts_ok : ∀ n ∈ Generated.BMS.layoutNames, ∀ l, layoutOf n = some l → LayoutOK l := by
